@@ -527,6 +527,7 @@ result_t BusHandler::prepareScan(symbol_t slave, bool full, const string& levels
   }
 
   deque<symbol_t> slaves;
+  const bool allSlaves = slave == SYN;  // the loop below reuses "slave"
   if (slave != SYN) {
     slaves.push_back(slave);
     if (!*reload) {
@@ -556,7 +557,7 @@ result_t BusHandler::prepareScan(symbol_t slave, bool full, const string& levels
   if (messages.empty()) {
     return RESULT_OK;
   }
-  *request = new ScanRequest(slave == SYN, m_messages, messages, slaves, this, *reload ? 0 : 1);
+  *request = new ScanRequest(allSlaves, m_messages, messages, slaves, this, *reload ? 0 : 1);
   result_t result = (*request)->prepare(m_protocol->getOwnMasterAddress());
   if (result < RESULT_OK) {
     delete *request;
